@@ -70,6 +70,14 @@ CLAIMED = {
             "Trusted: pysym translator (validated per run), z3/cvc5 FP theories, element-wise numpy models listed per obligation; "
             "QuantizedTime only for a sweep of concrete durations.",
             "DESIGN.md §1 C10"),
+    "C12": ("CrossHair/z3 symbolic execution of the real LLSD message serializer (harnesses generated per template, symbolic "
+            "U32/U64/S64 values and block counts), of the real binary LLSD formatter/parsers on trees built from symbolic "
+            "choices with symbolic S32 leaves, and of the notation formatter on strings from a hostile alphabet",
+            "Bounded symbolic model checking per template and per tree shape; the XML form is exercised with solver-chosen "
+            "selectors only (C parser).",
+            "Trusted: CrossHair + z3; third-party llsd constructors run untraced (engine workaround); values other than "
+            "the packed integer types come from catalogues.",
+            "DESIGN.md §1 C12"),
     "C13": ("CrossHair/z3 symbolic execution of BOTH real decoders (struct-based fast reader and declarative template) on "
             "payloads produced by the template's own serializer from a value with symbolic section flags / ids / State / "
             "path parameters, compared field by field; template re-encoding compared with the payload",
